@@ -89,3 +89,10 @@ Definition digits_gen (r x : Z) : list Z :=
   if gen4_fmt_route (is_pow2 r) =? 0 then digits_p2_gen r x else digits_np2_gen r x.
 
 End Dispatch.
+
+(* ---- layout: InRadixWriter::format_prepared as the translator's symbolic run of its output statements ---- *)
+Definition align_id (a : option align) : Z :=
+  match a with None => 0 | Some ALeft => 1 | Some ARight => 2 | Some ACenter => 3 end.
+
+Definition format_prepared_gen (f : fmtflags) (neg : bool) (prefix digits : list Z) : list Z :=
+  gen4_layout neg (f_plus f) (f_zero f) (align_id (f_align f)) (f_width f) (f_fill f) prefix digits.
